@@ -53,9 +53,11 @@ CLAIMED = {
          "The whole-IR round trip (container messages, decode order, CFG writer, deep_eq both ways, re-save) is covered by the bounded "
          "stand-in only and is not counted as proved."),
  "C02": ("proof", "4.IO", "Proved field by field for all objects/messages: header layout, DataBlock/CodeBlock/ProxyBlock/Symbol/SymAddrConst/"
-         "SymAddrAddr/AuxData writers and readers, the Block and SymbolicExpression one-ofs, the CFG edge reader, and the Python enum "
-         "tables against /repo/proto. Container bodies (IR, Module, Section, ByteInterval, CFG writer) under both protobuf back ends: "
-         "bounded stand-in."),
+         "SymAddrAddr/AuxData writers and readers, the Block and SymbolicExpression one-ofs, the CFG edge reader, the Python enum "
+         "tables against /repo/proto, and the container writers IR/Module/Section/ByteInterval._to_protobuf (scalars, one message "
+         "per child with its own fields via a map rule over the child writers' contracts, CFG vertex list, section flags; the "
+         "AuxData / symbolic-expression / CFG-edge fills are left out and named in the evidence). Container readers, order inside "
+         "repeated fields and both protobuf back ends: bounded stand-in."),
  "C07": ("proof", "4.IO", "Integer (8 widths), bool, string, UUID and Offset codecs: encode and decode are proved against the wire-format "
          "definition for all values and the round trip (value and byte count) is a lemma over the two contracts; Serialization.encode/"
          "decode top level proved over abstract tree codecs. Container codecs, float/double and codec dispatch: bounded stand-in."),
